@@ -51,6 +51,10 @@ FIRST_ATTEMPT = {
     "C17-11": "**missed** (u8 cell index: root 5) -> C17 roots 5 (quick) and 6 (thorough)",
     "C18-11": "**missed** (`--colors` on more than 64 vertices) -> C18 stage *graphs with planted answers, 60..130 vertices*",
     "C20-11": "caught by the stage *equal-hash sub-diagrams under one root*, written for this round (retain memo keyed by a 32-bit truncation of the hash)",
+    # round 12 (8 changes; angle: correct whenever at most two features meet, wrong when three or more meet)
+    "C04-12": "**missed** by C04 (caught by C01 and C06: `lfp x # [x, exists x # (x & b)] >= 1`) -> C04's language route puts the quantified formula inside counting lists, if-then-else and fixed points on one of the quantified names",
+    "C10-12": "**missed** by C10 (caught by C09: a name bound by a quantifier, re-bound by an inner fixed point and used again afterwards is reported free) -> C10 stage *shadowing formulas through -t / -v / -r*",
+    "C14-12": "**missed** (two list-versus-list comparisons with the same operator and operands, split at different points, collapse into one node of the parse-tree export) -> C14 generates near-copy sub-terms next to the original and enumerates all twin list comparisons over a, b, c, d",
     "C14-7": "**missed** (needs separately allocated equal sub-diagrams) -> C14 also exports plain values / nodes of another environment",
 }
 
@@ -73,7 +77,7 @@ def main():
            "of `/verif` whose harness points at it), quick tier, `VERIF_SEED=0`; `/repo` itself was never modified. `tests` = the",
            "repository's own 31-test suite with the change applied (`!!` = the suite itself notices the change: a weak mutant).", "",
            "### C.1 Changes written by independent sub-agents (`/verif/seeded/<ID>[-round]/`)", "",
-           "Eleven rounds of sub-agents (20 each, the ninth 10; the tenth was asked for the least exercised *place* instead of a shape of change, the eleventh for changes that are correct on every small instance and go wrong beyond a threshold of size, width, count or length); each saw only the text of one property (from round 2 on with a short hint at an angle",
+           "Twelve rounds of sub-agents (20 each, the ninth 10; the tenth was asked for the least exercised *place* instead of a shape of change, the eleventh for changes that are correct on every small instance and go wrong beyond a threshold of size, width, count or length; a twelfth, smaller round of 8 for changes that are correct whenever at most two features meet); each saw only the text of one property (from round 2 on with a short hint at an angle",
            "not derived from /verif) and its own worktree. Every change compiles, passes the 31 tests, and its demonstration fails",
            "with / passes without the change (re-confirmed in the lab, `meta.json`). `first attempt` says what happened when the",
            "change was first run against the checks as they were at that moment.", "",
